@@ -80,6 +80,7 @@ def zip2(xs):
 G1 = 100
 G2 = 200
 GN = None
+GK = 0
 '''
 
 IND = "    "
@@ -314,9 +315,17 @@ def r_stmt(s, ind, twin, ctx):
     if k == "def":
         g, cap = s[1], s[2]
         body = f"return q_ + {cap}" if cap else "return q_ * 2"
-        return [f"{ind}def {g}(q_):", f"{ind}{IND}{body}"]
+        # (an inner def with a default value: decorators and defaults belong to f's scope, the
+        # inner body does not)
+        sig = "q_, d_=1" if len(s) > 3 and s[3] else "q_"
+        return [f"{ind}def {g}({sig}):", f"{ind}{IND}{body}"]
     if k == "class":
+        if len(s) > 3 and s[3]:
+            # a global declaration inside the class body belongs to the class body
+            return [f"{ind}class {s[1]}:", f"{ind}{IND}global GK", f"{ind}{IND}GK = {r_expr(s[2], twin)}"]
         return [f"{ind}class {s[1]}:", f"{ind}{IND}z = {r_expr(s[2], twin)}"]
+    if k == "doc":
+        return [f'{ind}"""docstring of f."""']
     if k == "expr":
         return [ind + r_expr(s[1], twin)]
     if k == "return":
@@ -958,12 +967,12 @@ def functions(flags=None, want_gen=None):
                     # the outer function's variable only passes *through* f to the inner def
                     cap = "cl"
                 bound.add(g)
-                return [("def", g, cap)]
+                return [("def", g, cap, draw(st.integers(0, 2)) == 0)]
             if k == "class":
                 if not fl.nested_class:
                     return [("pass",)]
                 counters["K"] += 1
-                return [("class", f"K_{counters['K']}", int_expr(bound, 2))]
+                return [("class", f"K_{counters['K']}", int_expr(bound, 2), draw(st.integers(0, 2)) == 0)]
             if k == "del":
                 pool = [v for v in bound if v in LOCALS and v not in excluded]
                 if not pool or draw(st.integers(0, 2)):
@@ -1143,6 +1152,11 @@ def functions(flags=None, want_gen=None):
                 ghosts.add(s_[2])
         if ghosts:
             fn["body"] = [("if", ("int", 0), [("assign", [("n", g)], ("int", 0)) for g in sorted(ghosts)], [])] + body
+        dd = draw(st.integers(0, 39))
+        if dd == 0 and not gen and not decls:
+            fn["body"] = [("doc",)]  # a stub: the whole body is a docstring
+        elif dd < 5:
+            fn["body"] = [("doc",)] + fn["body"]
         return fn
 
     return fn_strategy()
